@@ -171,11 +171,12 @@ Definition class_here (o : vopts) (m : vmode) (pos : exmode) (n : dnode) : N :=
       else if is_k k "Paths" &&
               negb (forallb (fun kc => Bool.eqb (path_params_ok (fst kc) (snd kc)) (path_params_spec (fst kc) (snd kc))) (kids_of "items" ks)) then 2
       else if is_k k "Paths" && negb (nodup_l (map (fun kc => tpl_shape (fst kc) false) (kids_of "items" ks))) then 3
-      else if is_k k "Header" then 4
+      (* classes 3, 4 and 5 were repaired in /repo; the tests stay so that a reappearance is named *)
+      else if is_k k "Header" && negb (ext_ok o a) then 4
       else if is_k k "Parameter" && vo_noex o && has_kid "schema" ks && negb (ext_ok o a) then 5
       else if (is_k k "Parameter" || is_k k "MediaType") && negb (has_kid "schema" ks)
               && ahas a "#has_example" && ahas a "#has_examples" then 6
-      else if (is_k k "Parameter" || is_k k "MediaType")
+      else if (is_k k "Parameter" || is_k k "MediaType" || is_k k "Header")
               && existsb (fun kc => negb (ahas (nd_attrs (snd kc)) "#has_value")
                                     && negb (aok (nd_attrs (snd kc)) "#val_none" && aok (nd_attrs (snd kc)) "#val_req"
                                              && aok (nd_attrs (snd kc)) "#val_res"))
